@@ -412,6 +412,54 @@ def finals(ents):
     return d.get("clusters.pkl"), d.get("cluster-centroids-packed.pkl")
 
 
+def hash_seed_results(case_seed, hash_seeds):
+    """one workflow whose first round holds two dtype groups per file (two families of 256+ rows, a looser
+    family around the second one, noise), run serially in fresh interpreters under the given PYTHONHASHSEED
+    values (a forkserver / spawn worker draws its own unless the variable is exported).  Returns
+    (case, {hash seed: printed final files or 'failed: ...'})"""
+    import json
+    import subprocess
+    import sys
+    hrng = random.Random(case_seed)
+    nf = 64
+
+    def fam(base, n, flips):
+        out = []
+        for _ in range(n):
+            row = list(base)
+            for jj in hrng.sample(range(nf), flips):
+                row[jj] ^= 1
+            out.append(row)
+        return out
+    ba = [1 if hrng.random() < 0.35 else 0 for _ in range(nf)]
+    bb = [1 if hrng.random() < 0.35 else 0 for _ in range(nf)]
+    hfiles = []
+    for _f in range(2):
+        # whether the second family's summary re-enters before or after the loose rows decides what it absorbs
+        rows = fam(ba, hrng.choice([300, 320]), 2) + fam(bb, hrng.choice([270, 280]), 2) + \
+            fam(bb, 60, hrng.choice([8, 12, 16])) + [[1 if hrng.random() < 0.35 else 0 for _ in range(nf)] for _ in range(30)]
+        hrng.shuffle(rows)
+        hfiles.append(rows)
+    hcase = {"nf": nf, "files": hfiles, "names": "padded",
+             "cfg": {"bf": 50, "thr": 0.65, "change": 0.0, "tol": 0.05, "init": "diameter", "mid": "diameter",
+                     "final": None, "rounds": 1, "bin": 2, "refine": "full", "split_after": False,
+                     "save_centroids": True, "cleanup": False, "packed": True}}
+    code = ("import sys,json,warnings;warnings.filterwarnings('ignore');sys.path.insert(0,%r);import suite_mr;"
+            "from pathlib import Path;c=json.load(open(sys.argv[1]));d=Path(sys.argv[2]);(d/'in').mkdir();(d/'out').mkdir();"
+            "suite_mr.run_impl(c,d/'out',d/'in');print(json.dumps(suite_mr.finals(suite_mr.read_dir(d/'out',c['nf'])),default=str))"
+            % str(Path(__file__).parent))
+    outs = {}
+    with tempfile.TemporaryDirectory(prefix="verif_hseed_") as tmp:
+        tmp = Path(tmp)
+        (tmp / "case.json").write_text(json.dumps(hcase))
+        for hs in hash_seeds:
+            (tmp / f"h{hs}").mkdir()
+            p = subprocess.run([sys.executable, "-c", code, str(tmp / "case.json"), str(tmp / f"h{hs}")],
+                               capture_output=True, text=True, env=dict(os.environ, PYTHONHASHSEED=hs))
+            outs[hs] = p.stdout.strip().splitlines()[-1] if p.returncode == 0 and p.stdout.strip() else f"failed: {p.stderr[-200:]}"
+    return hcase, outs
+
+
 def suite_sched(seed, tier):
     import bblean.multiround as mr
     import multiprocessing as mp
@@ -502,59 +550,19 @@ def suite_sched(seed, tier):
                         r.bad.append({"suite": "sched", "what": f"{procs} processes ({method}, {mt} tasks per "
                                       "process) give different final clusters than the serial execution",
                                       "case": case})
-    # processes with DIFFERENT hash seeds (a forkserver / spawn worker draws its own unless PYTHONHASHSEED is
-    # exported): one workflow whose first round holds two dtype groups per file (two families of 256+ rows) is
-    # run serially in fresh interpreters with several hash seeds; the final files must not depend on it
-    import json
-    import subprocess
-    import sys
-    hrng = random.Random(seed + 77)
-    nf = 64
-
-    def fam(base, n, flips):
-        out = []
-        for _ in range(n):
-            row = list(base)
-            for jj in hrng.sample(range(nf), flips):
-                row[jj] ^= 1
-            out.append(row)
-        return out
-    ba = [1 if hrng.random() < 0.35 else 0 for _ in range(nf)]
-    bb = [1 if hrng.random() < 0.35 else 0 for _ in range(nf)]
-    hfiles = []
-    for _f in range(2):
-        # two tight families of 256+ rows, a looser family around the second one and noise: whether the
-        # second family's summary re-enters before or after the loose rows decides what it absorbs
-        rows = fam(ba, hrng.choice([300, 320]), 2) + fam(bb, hrng.choice([270, 280]), 2) + \
-            fam(bb, 60, hrng.choice([8, 12, 16])) + [[1 if hrng.random() < 0.35 else 0 for _ in range(nf)] for _ in range(30)]
-        hrng.shuffle(rows)
-        hfiles.append(rows)
-    hcase = {"nf": nf, "files": hfiles, "names": "padded",
-             "cfg": {"bf": 50, "thr": 0.65, "change": 0.0, "tol": 0.05, "init": "diameter", "mid": "diameter",
-                     "final": None, "rounds": 1, "bin": 2, "refine": "full", "split_after": False,
-                     "save_centroids": True, "cleanup": False, "packed": True}}
-    code = ("import sys,json,warnings;warnings.filterwarnings('ignore');sys.path.insert(0,%r);import suite_mr;"
-            "from pathlib import Path;c=json.load(open(sys.argv[1]));d=Path(sys.argv[2]);(d/'in').mkdir();(d/'out').mkdir();"
-            "suite_mr.run_impl(c,d/'out',d/'in');print(json.dumps(suite_mr.finals(suite_mr.read_dir(d/'out',c['nf'])),default=str))"
-            % str(Path(__file__).parent))
-    outs = {}
-    with tempfile.TemporaryDirectory(prefix="verif_hseed_") as tmp:
-        tmp = Path(tmp)
-        (tmp / "case.json").write_text(json.dumps(hcase))
-        for hs in (["0", "1", "2"] if tier == "quick" else ["0", "1", "2", "3", "5", "7", "11"]):
-            (tmp / f"h{hs}").mkdir()
-            p = subprocess.run([sys.executable, "-c", code, str(tmp / "case.json"), str(tmp / f"h{hs}")],
-                               capture_output=True, text=True, env=dict(os.environ, PYTHONHASHSEED=hs))
-            evals += 1
-            outs[hs] = p.stdout.strip().splitlines()[-1] if p.returncode == 0 and p.stdout.strip() else f"failed: {p.stderr[-200:]}"
+    # processes with DIFFERENT hash seeds: see hash_seed_results
+    hseeds = ["0", "1", "2"] if tier == "quick" else ["0", "1", "2", "3", "5", "7", "11"]
+    hcase, outs = hash_seed_results(seed + 77, hseeds)
+    evals += len(outs)
     if any(v.startswith("failed") for v in outs.values()):
         r.bad.append({"suite": "sched", "what": "the workflow could not be run in a fresh interpreter: "
-                      + next(v for v in outs.values() if v.startswith("failed"))[:200], "hash_seed_case": seed + 77})
+                      + next(v for v in outs.values() if v.startswith("failed"))[:200],
+                      "hash_seed_case": seed + 77, "hash_seeds": hseeds})
     elif len(set(outs.values())) > 1:
         r.bad.append({"suite": "sched", "what": "the final clusters / centroids depend on the hash seed of the process "
                       f"that runs the tasks (PYTHONHASHSEED {sorted(outs)}: {len(set(outs.values()))} different results)",
-                      "case": {**hcase, "files": [[list(x) for x in f[:3]] + ["... %d rows" % len(f)] for f in hcase["files"]]},
-                      "hash_seed_case": seed + 77})
+                      "case_summary": {**hcase, "files": [[list(x) for x in f[:3]] + ["... %d rows" % len(f)] for f in hcase["files"]]},
+                      "hash_seed_case": seed + 77, "hash_seeds": hseeds})
     r.cases = evals
     r.nontrivial = evals
     r.stats = {"configurations": n_cfg, "orders_per_configuration": n_orders, "hash_seeds": sorted(outs)}
@@ -936,6 +944,9 @@ def replay_c06(payload):
     and two real pools; True = all output directories (final files for real pools) are equal"""
     import multiprocessing as mp
     fi = payload.get("failing_input")
+    if fi and "hash_seed_case" in fi:
+        _, outs = hash_seed_results(fi["hash_seed_case"], fi.get("hash_seeds", ["0", "1", "2"]))
+        return not any(v.startswith("failed") for v in outs.values()) and len(set(outs.values())) == 1
     if not fi or "case" not in fi:
         return True
     case = {**fi["case"], "cfg": {**fi["case"]["cfg"], "cleanup": False}}
